@@ -170,6 +170,20 @@ impl SemanticState {
             }
         }
 
+        // Functions can only be attached to a type that this module defines: anything else was dropped silently.
+        for block in &module.impls {
+            let is_type_of_module = module.definitions.iter().any(|d| {
+                d.name == block.name && matches!(d.inner, grammar::ItemDefinitionInner::Type(_))
+            });
+            if !is_type_of_module {
+                anyhow::bail!(
+                    "impl block for `{}`, which is not a type defined in module `{}`",
+                    block.name,
+                    path
+                );
+            }
+        }
+
         for definition in &module.definitions {
             let new_path = path.join(definition.name.as_str().into());
             if self.type_registry.get(&new_path).is_some() {
